@@ -89,7 +89,7 @@ def replay_load(prop, rep):
 
 
 def run_property(prop, tier, seed, cases, needs, rule, extra=None, predicate=None, translators=("g4_to_coq",),
-                 budget_s=None, trusted_extra=None, known=None):
+                 budget_s=None, trusted_extra=None, known=None, known_lines=None):
     """Generic driver of a loader-style property check.
     cases(rng, quick, gr) yields dicts: {"tag":..., "text":..., "files":..., optional "pred": callable(impl) -> msg|None}
     """
@@ -99,6 +99,7 @@ def run_property(prop, tier, seed, cases, needs, rule, extra=None, predicate=Non
     import framework as fw
     from framework import Result, finish, proof_obligations
     res = Result(prop, tier, seed)
+    res.known = list(known_lines or [])
     rng = random.Random(seed)
     status = fw.build()
     proof_obligations(res, status, "props/%s.v" % prop, needs, translators=translators)
